@@ -58,6 +58,9 @@ def obligations_of(unit, prop):
         for h in item.get('hints', []):
             obs['%s::hint:%s' % (q, h[1])] = 'hint'
         obs['%s::body_safety' % q] = 'callee preconditions, overflow, indexing, unwrap'
+    for lemma, props in unit.get('lemma_props', {}).items():
+        if lemma != '*' and prop in props:
+            obs['lemma:%s' % lemma] = 'lemma (proof fn) of the specification text'
     return obs
 
 
@@ -65,6 +68,10 @@ def attribute(unit, failure):
     """Properties a failure counts against, and the obligation name it is reported under."""
     label = failure.get('label') or ''
     owner = failure.get('owner')
+    if failure.get('lemma'):
+        # a lemma / helper of the hand-written specification text failed: counts against every property served by it
+        lp = unit.get('lemma_props', {})
+        return 'lemma:%s' % failure['lemma'], set(lp.get(failure['lemma'], lp.get('*', ['*'])))
     items = {it.get('label', it.get('name')): it for it in unit['items'] if it.get('kind') == 'fn'}
     msg = failure['message']
     props = set()
@@ -232,16 +239,17 @@ def run_unit(unit_name, tier, seed):
     # Functions whose text the verifier rejects (unsupported construct after a source change) are replaced by
     # external_body stubs carrying their contract, so that the rest of the unit is still decided; the
     # obligations of the stubbed function itself are reported as undecided, never as discharged.
-    for _round in range(4):
+    for _round in range(6):
         g = gen.generate(unit_name, force_stub=tuple(unverifiable))
         probe = verify.run_verus(g['path'], 0, rl, 8, ['--no-verify'])
         pc = verify.classify(g, probe)
         bad = {}
         for t in pc['tool_errors']:
             if t.get('kind') in ('rustc', 'tool') and t.get('line'):
-                owner = verify._owner(g['linemap'], t['line'])
-                if owner and owner not in unverifiable:
-                    bad[owner] = t['message']
+                for ln in t.get('lines') or [t['line']]:
+                    owner = verify._owner(g['linemap'], ln)
+                    if owner and owner not in unverifiable:
+                        bad[owner] = t['message']
         if not bad:
             break
         unverifiable.update(bad)
@@ -345,7 +353,7 @@ def main(argv):
                 undecided.append('unit %s: vacuity canary (ensures false) was PROVED for %s: contradictory precondition' % (unit_name, relevant))
         for f in cls['failures']:
             name, props = attribute(unit, f)
-            if prop not in props:
+            if prop not in props and '*' not in props:
                 continue
             full = '%s/%s' % (unit_name, name)
             failed_names.add(full)
